@@ -20,12 +20,12 @@ static const char *const fault_names[] = { "thread_preempt", "irq_inject", "put_
 					   "get_refused_empty", "stall", NULL };
 enum { P_WRAPPED, P_FULL_WHILE_GET_IN_FLIGHT, P_EMPTY_WHILE_PUT_IN_FLIGHT, P_PUTCHAR_SPUN,
        P_BIG_RING, P_LEN2, P_IRQ_IN_PUT, P_IRQ_IN_GET, P_MODE_THR, P_MODE_IRQ_PROD, P_MODE_IRQ_CONS,
-       P_HIGH_BYTE, P_OVERLAP };
+       P_HIGH_BYTE, P_OVERLAP, P_HUGE_RING };
 static const char *const probe_names[] = {
 	"index_wrapped", "put_refused_while_get_in_flight", "get_empty_while_put_in_flight",
 	"putchar_had_to_spin", "ring_of_64_or_more", "ring_of_length_2", "interrupt_inside_put",
 	"interrupt_inside_get", "mode_threads", "mode_irq_producer", "mode_irq_consumer",
-	"byte_value_128_or_more", "put_and_get_overlapped", NULL };
+	"byte_value_128_or_more", "put_and_get_overlapped", "ring_longer_than_65534_bytes", NULL };
 
 #define MAXOPS 96
 
@@ -34,7 +34,7 @@ static uint8_t *store;
 static uint32_t buf_len;
 
 /* the history as seen from outside */
-static uint8_t put_val[4 * MAXOPS + 8192];
+static uint8_t put_val[4 * MAXOPS + 8192 + 300000];
 static uint32_t n_put_ok;		/* successful puts returned            */
 static uint32_t n_put_inv_ok;		/* puts invoked and not (yet) refused  */
 static uint32_t n_get_ok;		/* successful gets returned            */
@@ -185,11 +185,24 @@ static void run(void)
 	mode = races ? 0 : sim_choose(3);	/* 0 thr, 1 irq producer, 2 irq consumer */
 	uint32_t r = sim_choose(20);
 	buf_len = r < 16 ? 2 + r : r == 16 ? 64 : r == 17 ? 255 : r == 18 ? 256 : 4096;
+	uint32_t prefill = 0;
+	if (sim_chance(1, 600)) {
+		/* "every buffer length": indices are wider than 16 bits */
+		static const uint32_t huge[] = { 65535, 65536, 65537, 70000, 131072 };
+		buf_len = huge[sim_choose(5)];
+		/* fill it (sequentially) to just below capacity, or to just below 2^16 */
+		prefill = sim_choose(3) == 0 ? 0 : sim_choose(2) ? buf_len - 1 - sim_choose(3) : 65534 + sim_choose(3);
+		if (prefill > buf_len - 1)
+			prefill = buf_len - 1;
+		sim_probe(P_HUGE_RING);
+	}
 	if (buf_len == 2) sim_probe(P_LEN2);
 	if (buf_len >= 64) sim_probe(P_BIG_RING);
 	uint32_t prerotate = sim_choose(2 * (buf_len > 40 ? 40 : buf_len) + 1);
 	if (buf_len >= 64 && sim_choose(2))
 		prerotate = buf_len - 1 - sim_choose(4);	/* next to the wrap */
+	if (prerotate + prefill > 280000)
+		prerotate = sim_choose(80);
 	npops = 1 + sim_choose(MAXOPS - 1);
 	ncops = sim_choose(3) ? npops + sim_choose(npops + 1) : sim_choose(2 * MAXOPS);
 	if (ncops > 2 * MAXOPS)
@@ -205,7 +218,7 @@ static void run(void)
 	simrt_region_add(store, buf_len, SIMRT_SHARED, "ring-storage");
 	simrt_region_add(rb, sizeof(*rb), SIMRT_SHARED, "ring-descriptor");
 	simrt_bounds(true);
-	sim_budget(400000 + 40ull * prerotate);
+	sim_budget(400000 + 40ull * prerotate + 40ull * prefill);
 	if (sim_choose(2)) {
 		ringbuf_init(rb, store, buf_len);
 	} else {
@@ -228,6 +241,11 @@ static void run(void)
 			sim_probe(P_WRAPPED);
 	}
 
+	/* long-lived contents: bytes put now are consumed during and after the concurrent phase */
+	for (uint32_t i = 0; i < prefill; i++) {
+		pop_t o = { 0, (uint8_t)(i * 29 + 3) };
+		do_put(&o);
+	}
 	for (uint32_t i = 0; i < npops; i++) {
 		sim_seg();
 		pops[i].kind = spin_ok && sim_chance(1, 4);
@@ -291,7 +309,7 @@ const sim_harness_t sim_harness = {
 	.probe_names = probe_names,
 	.min_ops = 4,
 	.rule = "one case = one ring geometry (length 2-17, 64, 255, 256, 4096; indices pre-rotated to a "
-		"tape-chosen start), one producer program and one consumer program, and one schedule: "
+		"tape-chosen start; one run in 600: 65535-131072 bytes, pre-filled to near capacity or near 2^16), one producer program and one consumer program, and one schedule: "
 		"free-running threads under one of four strategies (random, PCT, k preemptions, stalls) "
 		"or run-to-completion interrupts in either direction, preempting at every atomic "
 		"operation and every access to ring storage; non-trivial = at least 4 calls and at least "
